@@ -83,12 +83,18 @@ def sortBlocks (m : Mode) (bs : List Block) : List Block := sortBy m (startOf m)
 /-- `sortRRCs` -/
 def sortRRCs (m : Mode) (rs : List Rec) : List Rec := sortBy m (·.2) rs
 
-/-- two-way `utils.MergeSortedSlices(less, l, r)`: the right head is taken only when strictly before the left head -/
+/-- inner loop of `merge` for a fixed left head `a`; `cont` merges the left tail -/
+def mergeInto (m : Mode) (a : Rec) (cont : List Rec → List Rec) : List Rec → List Rec
+  | [] => a :: cont []
+  | b :: r => if m.before b.2 a.2 then b :: mergeInto m a cont r else a :: cont (b :: r)
+
+/-- two-way `utils.MergeSortedSlices(less, l, r)`: the right head is taken only when strictly before the left
+head (structural recursion, so that the kernel can evaluate it):
+  merge [] r = r;  merge l [] = l;
+  merge (a :: l) (b :: r) = if before b a then b :: merge (a :: l) r else a :: merge l (b :: r) -/
 def merge (m : Mode) : List Rec → List Rec → List Rec
-  | [], r => r
-  | l, [] => l
-  | a :: l, b :: r =>
-    if m.before b.2 a.2 then b :: merge m (a :: l) r else a :: merge m l (b :: r)
+  | [] => fun r => r
+  | a :: l => mergeInto m a (merge m l)
 
 /-- number of leading blocks whose start time equals `s0` -/
 def tieCount (m : Mode) (s0 : Nat) : List Block → Nat
